@@ -47,6 +47,7 @@ CLAUSE_PROPERTY = {
     "RS_LabelRange": "C14",
     "RS_LabelsFromModel": "C14",
     "MP_Count": None,
+    "MP_OnlyAtZero": "C03",
     "MP_Coherent": "C07",
     "MP_NoInf": "C11",
     "MP_Calls": "C13",
@@ -618,6 +619,7 @@ class Recorder:
                    reflective=sorted(int(i) for i in (run.reflective if run.reflective is not None else [])))
         self._mcmc_mark = self.evals
         self._sweep_mark = self.evals
+        self._mcmc_seen = True
 
     def _on_sweep(self, r):
         run = r["runner"]
@@ -636,7 +638,10 @@ class Recorder:
         beta = float(st.get_current("beta"))
         slots = self.cur_slots(st)
         calls = int(st.get_current("calls"))
-        if beta == 0.0:
+        # which branch of the mutation step RAN is observed (did a kernel start in this iteration?), not inferred from the temperature
+        kernel_ran = bool(getattr(self, "_mcmc_seen", False))
+        self._mcmc_seen = False
+        if not kernel_ran:
             n, a = self._prior_batch if self._prior_batch else (len(slots), len(slots))
             self._prior_batch = None
             # the number of zero-likelihood draws is what the USER's function returned (not what reached the mutator)
